@@ -211,6 +211,13 @@ func (r *RootExpr) Validate() error {
 	if r.API == nil {
 		verr.Add(r, "Missing API declaration")
 	}
+	for _, rt := range r.ResultTypes {
+		if view, ok := rt.AttributeExpr.Meta.Last(ViewMetaKey); ok {
+			if _, err := Project(rt, view); err != nil {
+				verr.Add(rt, "%s", err)
+			}
+		}
+	}
 	return &verr
 }
 
